@@ -150,6 +150,11 @@ def f_hspec(weighted, nodes_meta, edges):
     return "%d~%s~%s" % (1 if weighted else 0, ns, es)
 
 
+def strip_edge_meta(a):
+    import re
+    return re.sub(r"(@-?\d+)=[^;|~]*", r"\1", a)
+
+
 class Timeout(Exception):
     pass
 
@@ -1041,6 +1046,15 @@ def oracle_derivations(ctx, case, impl, slot, n, rng, full):
                     bad("aggregate(%r) was accepted" % (w,))
                 except Exception:
                     pass
+            # __str__ / __len__ / __iter__ are the counts and the size distribution of the records
+            dist = {}
+            for k in recs:
+                dist[len(k[1])] = dist.get(len(k[1]), 0) + 1
+            want_str = "Hypergraph with %d nodes and %d edges.\nDistribution of hyperedge sizes: %s" % (len(nodes), len(recs), dist)
+            if str(h) != want_str:
+                bad("str() = %r, the records give %r" % (str(h), want_str))
+            if len(h) != len(recs) or sorted((r[0][0], tuple(impl.RE(r[0][1]))) for r in h) != sorted(recs):
+                bad("len()/iter() do not list the records once each")
     except Timeout:
         bad("a derivation (get_edges window / subhypergraph / aggregate) did not terminate within 30 s")
     except Exception as e:
@@ -1275,7 +1289,10 @@ class Runner:
         got = self.impl.query(slot, q)
         if use_spec:
             want = self.specs[slot].query(q)
-            if want is not None and got != want and not self.failed:
+            # the property does not say which metadata an aggregated hyperedge carries: that detail is compared with
+            # the model only (a difference there is a broken correspondence, not a violation)
+            differs = (strip_edge_meta(got) != strip_edge_meta(want)) if (q[0] == "agg" and want is not None) else got != want
+            if want is not None and differs and not self.failed:
                 self.failed = True
                 self.ctx.violation(self.case({"slot": slot, "query": list(q)}),
                                    "query %s on slot %d: implementation answers %s, the map of the same history gives %s"
